@@ -153,6 +153,18 @@ func init() {
 			}
 			o.Oracle(m, tr.Err == "", "combination of "+q.Method+" with biases ["+strings.Join(q.Biases, ",")+"] answered with an error: "+truncate(tr.Err, 160))
 			m.GoOut = nil
+			// non-finite numbers (overflow of an exponential gain on a tiny range, …) cannot be serialised: such a
+			// request is outside every theorem and oracle
+			nonFinite := false
+			for _, st := range tr.Steps {
+				if st.Props != nil && st.PropsJSON == "" {
+					nonFinite = true
+				}
+			}
+			if nonFinite {
+				o.count("non-finite-output")
+				continue
+			}
 			// states handed on
 			for i, st := range tr.Steps {
 				if st.Out == nil {
